@@ -1,5 +1,6 @@
 import numpy as np
 import scipy.linalg
+import scipy.special
 import opt_einsum
 import torch
 
@@ -99,7 +100,7 @@ def get_eof_2qubit(rho:np.ndarray):
         ret = 0
     else:
         tmp1 = (1 + np.sqrt(1-tmp0*tmp0))/2
-        ret = -tmp1*np.log(tmp1) - (1-tmp1)*np.log(1-tmp1)
+        ret = -scipy.special.xlogy(tmp1, tmp1) - scipy.special.xlogy(1-tmp1, 1-tmp1) #0*log(0)=0 when the concurrence is tiny
     return ret
 
 
